@@ -27,12 +27,15 @@ A trace the spec cannot explain is a property violation here (every logged obser
 result of a get or lookup, and the spec allows any fresh address for a new key): it is
 reported with the class of the first unexplained record.
 
-Mutation self-tests done while building (see final report): reverse map not updated on insert
--> VIOLATION (lookup of a returned address answers none); uniqueness check removed -> VIOLATION
-on the narrowed traces (two keys share an address); custom subnet constant changed in
-`TryFrom` only -> VIOLATION in the classification table and in the traces (cls mismatch).
-Binding self-tests (thorough, and one in quick): one field of an accepted trace corrupted /
-one record removed -> the trace spec rejects.
+Mutation self-test done while building: the uniqueness test of the generate loop disabled
+(`if !inner.lookup.contains_key(&candidate) || true`) -> `VIOLATION property=C18`, class
+address_shared (a get() on the custom map returned an address another key already owned; found on
+the traces with the narrowed host space); undone -> exit 0.  The design's example mutation
+(reverse map not updated on insert) was deliberately not applied to the shared live /repo (it
+breaks every relay path of the other builders' end-to-end runs); the same detection path is shown
+by the binding self-test "lookup hit replaced by none" (rejected by the trace spec).
+Binding self-tests (1 in quick, 4 in thorough): one field of an accepted trace corrupted / one
+record removed -> the trace spec must reject; the results are in the evidence file.
 """
 import json
 import random
